@@ -183,6 +183,14 @@ def ob_step(ctx, rich, STEP):
     rs.hunks = list(prev_hunks)
     rs.inserts, rs.deletes = ti, td
     rs.processed = ln - 1
+    if not in_hunk:
+        # outside a hunk the per-hunk variables are dead: whatever an earlier iteration left in them (Inv_h says
+        # nothing about them, so the step must not depend on them -- and need not reset them)
+        from sx.extract import STALE
+        st['hunk_orig_i'] = sym_int(ctx, 'dead_oi')
+        st['hunk_modified_i'] = sym_int(ctx, 'dead_mi')
+        st['cur_hunk_orig'] = STALE
+        st['cur_hunk_modified'] = STALE
     if in_hunk:
         o = _side(ctx, 'o', ctx.choose(0, 1, 'o.has'))
         m_ = _side(ctx, 'm', ctx.choose(0, 1, 'm.has'))
@@ -246,9 +254,6 @@ def ob_step(ctx, rich, STEP):
             props.append((nm + '.state', value_eq(d, side.summary())))
             props.append((nm + '.i', value_eq(loc[idx], side.i)))
         props.append(('context', value_eq(loc['cur_hunk_entry'].get('context'), rs.context)))
-    else:
-        props.append(('reset', value_eq([loc['hunk_orig_i'], loc['hunk_modified_i'], loc['cur_hunk_orig'],
-                                         loc['cur_hunk_modified']], [0, 0, None, None])))
     return verdict(ctx, props, witness=wit,
                    sample=lambda m: {'line': model_bytes(m, line), 'in_hunk': in_hunk, 'outcome': kind})
 
